@@ -290,6 +290,25 @@ theorem net_model_solution_minimizes (m : Mode) (nbCells : Nat) (raws : List Raw
   rw [e] at hx
   exact inv_solution_minimizes _ _ inv x hx y
 
+/-- **The finalized system** — the object handed to Eigen and observed by hook H2 — is the
+normal-equation system of the same quadratic plus `regQ`, the regularisation `1e-8 · x_i²` of the
+unknowns no pin has touched, and every exact solution of the finalized system minimises it. -/
+theorem finalized_system_is_least_squares (m : Mode) (nbCells : Nat) (raws : List RawNet) (pl : List Rat)
+    (ε : Rat) (pen : Option Penalty) (h : WellFormed nbCells raws) (hε : 0 ≤ ε) (hp : PenaltyOk pen) :
+    IsHalfGradient (finalize (assemble m nbCells raws pl ε pen))
+        (fun x => QModel m pl ε x nbCells (buildWith (fun w => w) raws) + penQ pl pen nbCells x
+          + regQ (assemble m nbCells raws pl ε pen) x)
+      ∧ ∀ x, Solves (finalize (assemble m nbCells raws pl ε pen)) x → ∀ y,
+          QModel m pl ε x nbCells (buildWith (fun w => w) raws) + penQ pl pen nbCells x
+              + regQ (assemble m nbCells raws pl ε pen) x
+            ≤ QModel m pl ε y nbCells (buildWith (fun w => w) raws) + penQ pl pen nbCells y
+              + regQ (assemble m nbCells raws pl ε pen) y := by
+  have e : Gen.NetWeightType.store = fun w => w := funext store_exact
+  have inv := finalize_inv _ _ (assembleNets_inv m nbCells (buildWith (fun w => w) raws) pl ε hε pen hp h)
+  unfold assemble assembleWith
+  rw [e]
+  exact ⟨inv.grad, fun x hx y => inv_solution_minimizes _ _ inv x hx y⟩
+
 /-- **The quadratic is linear in the weights**: multiplying all net weights and penalty strengths by
 `k` multiplies `QModel + penQ` by `k` (so each net's term, hence its pull, is proportional to its
 own weight). -/
